@@ -28,6 +28,8 @@ def extra_row(rng, case, spec):
         uid = "51999"  # no '_' although the unit type has districts / precincts
     else:
         uid = gen.unit_id(case["unit_type"], d, c, "xq")
+        if spec.get("id") == "split" and case["unit_type"].startswith("precinct"):
+            uid = uid + "_A"
         used = {b["geographic_unit_fips"] for b in base}
         if uid in used:
             c = "977"
@@ -173,7 +175,13 @@ def jobs_for(chk):
     for i in range(n):
         pi = ["nonparametric", "gaussian", "bootstrap"][i % 3]
         spec = {"state": "known", "county": rng.choice(["known", "new"]), "district": rng.choice(["known", "new"]), "pev": rng.choice([0, 50, 100])}
+        if i % 4 == 1:
+            spec["id"] = "split"
         kw = {"pi_method": pi, "avoid_boot_nan_key": False}
+        if i % 4 == 1:
+            kw["unit_type"] = "precinct" if i % 8 == 1 else "precinct-district"
+            kw["office"] = "S" if i % 8 == 1 else "H"
+            kw["aggregates"] = ["postal_code", "county_fips", "unit"] + (["district"] if i % 8 != 1 else [])
         jobs.append((rng.randint(0, 2**31), kw, spec))
     # boundary families (each is a known-finding shape on the unchanged tree)
     fam = [
